@@ -8,3 +8,4 @@ import Dnp3.Model.OutstationTrace
 import Dnp3.Driver.Convert
 import Dnp3.Driver.Parse
 import Dnp3.Driver.Ffi
+import Dnp3.Driver.Db
